@@ -20,6 +20,10 @@ def ops_chain(e, param):
     while True:
         if isinstance(e, ast.Name):
             return ops if e.id == param else None
+        if isinstance(e, ast.Attribute) and dotted(e) in (
+                "self.matrix", "self.proj_data") and param in (
+                "matrix", "self.matrix"):
+            return ops
         if isinstance(e, ast.Attribute) and e.attr == "T":
             ops.append("T")
             e = e.value
